@@ -138,10 +138,9 @@ func coreCheck(adj [][]int, root int, weights [][]float64, heavy bool) error {
 		}
 		for c := 0; c < s.NumNodes(); c++ {
 			out := s.Out(c)
-			if flags&graphalg.SCCEdges == 0 {
-				if out != nil {
-					return fmt.Errorf("SCC(flags %d): Out(%d) = %v without SCCEdges", flags, c, out)
-				}
+			if flags&graphalg.SCCEdges == 0 && len(out) == 0 {
+				// edges were not asked for: nothing is claimed (if some are listed
+				// all the same, they must be the right ones)
 				continue
 			}
 			var want []int
@@ -149,7 +148,8 @@ func coreCheck(adj [][]int, root int, weights [][]float64, heavy bool) error {
 				want = append(want, k)
 			}
 			sort.Ints(want)
-			if !sameInts(out, want) {
+			// a set, listed once each: the order within the list is not specified
+			if !sameInts(sortedCopy(out), want) {
 				return fmt.Errorf("SCC: Out(%d) = %v, components with an edge from it: %v", c, trunc(out), trunc(want))
 			}
 		}
